@@ -799,7 +799,57 @@ func hintStage(r *rand.Rand, full bool) {
 	}
 }
 
+// searchedSamplerInputs: inputs of every rejection sampler selected by their XOF consumption (minimum, typical,
+// maximum found in a bounded seeded search; for eta = 4 inputs needing a third SHAKE256 block).
+func searchedSamplerInputs(r *rand.Rand, full bool) {
+	budget := 100000
+	if full {
+		budget = 1000000
+	}
+	for _, hh := range searchRho(r, 34, budget, 4, nttRejections) {
+		var rho [34]byte
+		copy(rho[:], hh.rho)
+		bytes := 3 * (256 + hh.n)
+		w.Emit(vt.Ev{"ev": "rejntt", "kind": "searched:" + hh.why, "rejections": hh.n, "blocks": blocksOf(bytes, 168), "rho": vt.Hex(rho[:]), "out": h.MLDSARejectNTTPoly(rho)})
+	}
+	for _, name := range []string{"44", "65", "87"} {
+		p := getSet(name)
+		for _, hh := range searchRho(r, p.lambda/4, budget, 4, func(b []byte) int { return ballRejections(b, p.tau) }) {
+			w.Emit(vt.Ev{"ev": "sampleinball", "kind": "searched:" + hh.why, "rejections": hh.n, "blocks": blocksOf(8+p.tau+hh.n, 136), "tau": p.tau,
+				"rho": vt.Hex(hh.rho), "out": h.MLDSASampleInBall(p.par, hh.rho)})
+		}
+		// RejBoundedPoly: direct candidates (min / typical / max) ...
+		for _, hh := range searchRho(r, 66, budget, 4, func(b []byte) int { return boundedBytes(b, p.eta) }) {
+			var rho [66]byte
+			copy(rho[:], hh.rho)
+			w.Emit(vt.Ev{"ev": "rejbounded", "kind": "searched:" + hh.why, "bytes": hh.n, "blocks": blocksOf(hh.n, 136), "eta": p.eta, "rho": vt.Hex(rho[:]),
+				"out": h.MLDSARejectBoundedPoly(p.par, rho)})
+		}
+		// ... and the ExpandS inputs of the KeyGen seeds found by the seed search (the algorithm stage uses the same seeds)
+		for _, hh := range searchedSeeds(p, full) {
+			var rho [66]byte
+			copy(rho[:], hh.rhop[:])
+			rho[64] = byte(hh.idx)
+			w.Emit(vt.Ev{"ev": "rejbounded", "kind": "searched-seed:" + hh.why, "bytes": hh.bytes, "blocks": blocksOf(hh.bytes, 136), "eta": p.eta, "rho": vt.Hex(rho[:]),
+				"out": h.MLDSARejectBoundedPoly(p.par, rho)})
+		}
+	}
+}
+
+// searchedSeeds: KeyGen seeds whose ExpandS consumes an unusual number of XOF bytes (same list in both stages).
+func searchedSeeds(p pset, full bool) []seedHit {
+	budget, want := 400000, 3
+	if full {
+		budget, want = 2000000, 12
+	}
+	if p.eta == 2 { // two blocks always suffice: only min / max are of interest
+		budget = 3000
+	}
+	return searchSeedsBounded(p, vt.Rng(int64(140+p.k)), budget, want, 2*136)
+}
+
 func sampleStage(r *rand.Rand, full bool) {
+	searchedSamplerInputs(r, full)
 	n := 12
 	if full {
 		n = 150
